@@ -150,7 +150,7 @@ func evalCase(c *vlib.Check, s *site, in *inst, outer, first int, inner string, 
 		cd.GotID = fmt.Sprint(id)
 		c.Eval("id:"+class, "id-WRONG")
 		st.add("cbor.DecodeIdFromList", "wrong@outer="+of)
-		c.Violation("DecodeIdFromList|outer-header="+of,
+		report(c, "DecodeIdFromList|outer-header="+of,
 			fmt.Sprintf("DecodeIdFromList(%x) = %d, first element is %d (array header form %s, first element form %s; e.g. %s)",
 				clip(list), id, tag, of, ff, s.name), cd)
 	default:
@@ -169,7 +169,7 @@ func evalCase(c *vlib.Check, s *site, in *inst, outer, first int, inner string, 
 	case derr != nil:
 		c.Eval(class, "rejected")
 		st.add(s.name, "rejected@outer="+of)
-		if outer == space.FormMin && first == space.FormMin && inner == "" {
+		if outer == space.FormMin && first == space.FormMin && inner == "" && in.want != "" {
 			c.Note(fmt.Sprintf("canonical instance rejected: %s %s: %v", s.name, in.desc, derr))
 			st.add(s.name, "CANONICAL-REJECTED")
 		}
@@ -193,12 +193,47 @@ func evalCase(c *vlib.Check, s *site, in *inst, outer, first int, inner string, 
 			s.name, tag, of, ff, got, want, clip(enc))
 		if idWrong {
 			// same root cause as (a): the id the decoder switched on is the wrong one
-			c.Violation("DecodeIdFromList|outer-header="+of, what, cd)
+			report(c, "DecodeIdFromList|outer-header="+of, what, cd)
 		} else {
-			c.Violation(fmt.Sprintf("%s|tag=%d|outer-header=%s", s.name, tag, of), what, cd)
+			report(c, fmt.Sprintf("%s|tag=%d", s.name, tag), what, cd)
 		}
 	}
 }
+
+// violations are collected during the parallel run and reported afterwards in a fixed
+// order, so that the example printed for a key (and its replay file) is the same on every run.
+type pending struct {
+	key, what string
+	cd        caseDesc
+}
+
+var (
+	pendMu sync.Mutex
+	pend   = map[string]pending{}
+)
+
+func report(c *vlib.Check, key, what string, cd caseDesc) {
+	pendMu.Lock()
+	defer pendMu.Unlock()
+	old, ok := pend[key]
+	// keep the smallest example: shortest input, then lexicographically first
+	if !ok || len(cd.Hex) < len(old.cd.Hex) || len(cd.Hex) == len(old.cd.Hex) && (cd.Hex < old.cd.Hex || cd.Hex == old.cd.Hex && what < old.what) {
+		pend[key] = pending{key, what, cd}
+	}
+}
+
+func flush(c *vlib.Check) {
+	var keys []string
+	for k := range pend {
+		keys = append(keys, k)
+	}
+	sort.Strings(keys)
+	for _, k := range keys {
+		c.Violation(k, pend[k].what, pend[k].cd)
+	}
+}
+
+func mustHex(s string) []byte { b, _ := hex.DecodeString(s); return b }
 
 func clip(b []byte) []byte {
 	if len(b) > 64 {
@@ -307,6 +342,7 @@ func replay(c *vlib.Check) {
 		}
 		l := n.At(in.path)
 		evalCase(c, s, in, l.Form, l.Items[0].Form, rf.Replay.Inner, enc)
+		flush(c)
 		c.Set("rule", "replay of one recorded case")
 		c.Finish()
 	}
@@ -337,6 +373,7 @@ func main() {
 		}
 	}
 	vlib.Parallel(len(jobs), func(i int) { runInst(c, jobs[i].s, jobs[i].in) })
+	flush(c)
 
 	// written-out samples: first three reinterpretations, plus some plain cases
 	for i, r := range st.reint {
@@ -408,7 +445,7 @@ func main() {
 				continue
 			}
 			seen[k] = true
-			l = append(l, short{r.Site, r.Outer, r.First, r.Got, r.Want, r.Hex, r.Tag})
+			l = append(l, short{r.Site, r.Outer, r.First, r.Got, r.Want, vlib.Hex(mustHex(r.Hex)), r.Tag})
 		}
 		sort.Slice(l, func(i, j int) bool {
 			if l[i].Site != l[j].Site {
